@@ -360,6 +360,11 @@ func ruleForwardGuards(r *Run, rule string, fns []*ssa.Function, optional map[st
 					continue
 				}
 				cond, neg := stripNot(iff.Cond)
+				// a presence test computed once by the enclosing function and captured by this goroutine body
+				if cv := capturedValue(cond); cv != cond {
+					c2, n2 := stripNot(cv)
+					cond, neg = c2, neg != n2
+				}
 				present, known := false, false // does cond (un-negated) mean "the field is present"?
 				subject := ""
 				if x, nonNil, ok := nilCmp(c, cond); ok {
